@@ -36,7 +36,13 @@ RULE = ('histories of 4..8 (quick) / 6..14 (thorough) operations from {write(for
 ASSUMPTIONS = ['file mtimes are set explicitly with os.utime (whole seconds), so the check does not depend on the clock']
 
 
-def body(v, macros, xml, include):
+class Broken(Exception):
+    """model: the current file content does not compile"""
+
+
+def body(v, macros, xml, include, broken=False):
+    if broken:
+        return '<r>V%d<b tal:content="1 +">x</b></r>' % v
     s = ('<?xml version="1.0"?>' if xml else '') + '<r>V%d' % v
     for m in macros:
         s += '<i metal:define-macro="%s">M-%s-V%d</i>' % (m, m, v)
@@ -72,9 +78,14 @@ class TplModel:
     def use(self, fm):
         content, mtime = fm.files[self.path]
         if self.compiled is None or (self.auto and mtime != self.seen_mtime):
+            self.cooks += 1
+            if len(content) > 4 and content[4]:
+                # a version that does not compile: nothing is served (least of all an older version), and
+                # every further use tries again
+                self.compiled = None
+                raise Broken()
             self.compiled = content
             self.seen_mtime = mtime
-            self.cooks += 1
         return self.compiled
 
 
@@ -94,7 +105,7 @@ def run_history(ctx, rng, root, cooks):
     lib_dirs = rng.sample(dirs, rng.randint(1, ndirs)) if include else []
     libs = [os.path.join(d, 'lib.pt') for d in lib_dirs]
 
-    def write(path, is_lib, direction):
+    def write(path, is_lib, direction, broken=False):
         ver[0] += 1
         if direction == 'fwd':
             clock[0] += rng.choice([1, 3, 1000])
@@ -102,7 +113,7 @@ def run_history(ctx, rng, root, cooks):
             clock[0] -= rng.choice([1, 7])
         macros = tuple(sorted(rng.sample(['m1', 'm2', 'm-3'], rng.randint(0, 2))))
         xml = rng.random() < .3
-        content = (ver[0], macros, xml, include if not is_lib else False)
+        content = (ver[0], macros, xml, include if not is_lib else False, broken)
         with open(path, 'w') as f:
             f.write(body(*content))
         os.utime(path, (clock[0], clock[0]))
@@ -137,8 +148,14 @@ def run_history(ctx, rng, root, cooks):
     for step in range(nsteps):
         op = rng.choice(['write_fwd', 'write_fwd', 'write_back', 'touch', 'render', 'render', 'names', 'macro', 'ctype',
                          'write_lib'] if include else
-                        ['write_fwd', 'write_fwd', 'write_back', 'touch', 'render', 'render', 'names', 'macro', 'ctype'])
+                        ['write_fwd', 'write_fwd', 'write_back', 'touch', 'render', 'render', 'names', 'macro', 'ctype',
+                         'write_broken', 'render'])
         kinds.append(op)
+        if op == 'write_broken':
+            write(main, False, 'fwd', broken=True)
+            wrote.add(main)
+            hist.append((op, fm.files[main]))
+            continue
         if op in ('write_fwd', 'write_back'):
             write(main, False, 'fwd' if op == 'write_fwd' else 'back')
             wrote.add(main)
@@ -158,13 +175,39 @@ def run_history(ctx, rng, root, cooks):
             continue
         if main in wrote:
             nontrivial = True
-        v, macros, xml, inc = tm.use(fm)
+        try:
+            v, macros, xml, inc = tm.use(fm)[:4]
+            broken_now = False
+        except Broken:
+            broken_now = True
+        if broken_now:
+            # every kind of use has to fail with the compile error, again and again
+            try:
+                if op == 'render':
+                    got = t()
+                elif op == 'names':
+                    got = sorted(t.macros.names)
+                elif op == 'ctype':
+                    t.cook_check()
+                    got = t.content_type
+                else:
+                    got = t.macros['m1']
+            except Exception as e:
+                got = 'RAISED %s' % type(e).__name__
+            hist.append((op, got))
+            ctx.mon('history-steps-compared')
+            ctx.mon('uses-of-a-version-that-does-not-compile')
+            if got != 'RAISED ExpressionError':
+                ctx.violation('history-broken-version-served', 'auto_reload=%s via_loader=%s: step %d %s: the current file content does not '
+                              'compile, yet the use gave %r; history %r' % (auto, via_loader, step, op, got, hist), {'kind': 'history', 'hist': repr(hist)})
+                break
+            continue
         try:
             if op == 'render':
                 inc_text = ''
                 if inc:
                     lm = lib_resolve()
-                    lv, lmac, lxml, _ = lm.use(fm)
+                    lv, lmac, lxml, _ = lm.use(fm)[:4]
                     inc_text = expected_render(lv, lmac, lxml, False, '')
                 got = t()
                 want = expected_render(v, macros, xml, inc, inc_text)
